@@ -118,7 +118,13 @@ func call(cl *rpcw.Client, tok string) (time.Duration, string, string) {
 func runScenario(sc scenario) {
 	w := newWorld()
 	defer func() { w.srv.Stop() }()
-	cl := rpcw.NewDirect([]string{w.addr}, rpcw.Opt{InvokeTimeoutMs: callTimeoutMs, DialTimeout: time.Second})
+	opt := rpcw.Opt{InvokeTimeoutMs: callTimeoutMs, DialTimeout: time.Second}
+	if sc.CloseKind == "down-call-up" && sc.Callers == 1 {
+		// a small bound on calls in flight: the calls that fail while the server is away must not
+		// stay counted, or the proxy refuses everything once the server is back
+		opt.ObjQueueMax = 4
+	}
+	cl := rpcw.NewDirect([]string{w.addr}, opt)
 	wit := func(extra map[string]interface{}) map[string]interface{} {
 		m := map[string]interface{}{"scenario": sc}
 		for k, v := range extra {
@@ -162,13 +168,15 @@ func runScenario(sc scenario) {
 			time.Sleep(20 * time.Millisecond)
 			w.srv.CloseAllConns()
 		case "down-call-up":
-			// the server goes down, one call is attempted meanwhile (it may fail, it must return),
+			// the server goes down, three calls are attempted meanwhile (they may fail, they must return),
 			// then the server comes back on the same port
 			w.srv.Stop()
 			waitFor(func() bool { return clientClosed(cl) }, 2*time.Second)
-			if d, c, _ := call(cl, fmt.Sprintf("c11-%d-c%d-down", sc.ID, cyc)); c == "never-returned" {
-				run.Violation("call-never-returns", "down-call-up", fmt.Sprintf("a call issued while the server was down had not returned after %v; scenario %+v", d, sc), wit(map[string]interface{}{"cycle": cyc}))
-				return
+			for k := 0; k < 3; k++ {
+				if d, c, _ := call(cl, fmt.Sprintf("c11-%d-c%d-down%d", sc.ID, cyc, k)); c == "never-returned" {
+					run.Violation("call-never-returns", "down-call-up", fmt.Sprintf("a call issued while the server was down had not returned after %v; scenario %+v", d, sc), wit(map[string]interface{}{"cycle": cyc}))
+					return
+				}
 			}
 			w.restart()
 		case "notice-window":
